@@ -129,6 +129,12 @@ def _touch(d):
 
 
 def _extract_locked(repo, th, cdir, marker, features, overflow, deps, target_dir, keep_target, crate):
+    # keep the cache bounded (each entry is ~10-25 MB; runs over hundreds of scratch trees would otherwise fill the disk): beyond 400
+    # entries the least recently used go, except those touched in the last ten minutes
+    try:
+        prune_cache(400, min_age=600)
+    except OSError:
+        pass
     tmp_out = tempfile.mkdtemp(prefix="scf-out-", dir=cache_root())
     own_target = target_dir is None
     if own_target:
@@ -188,7 +194,7 @@ def list_crates(facts_dir):
     return sorted(f[:-len(".facts.json")] for f in os.listdir(facts_dir) if f.endswith(".facts.json"))
 
 
-def prune_cache(max_entries=120):
+def prune_cache(max_entries=120, min_age=3600):
     root = cache_root()
     ents = [os.path.join(root, d) for d in os.listdir(root)]
     ents = [e for e in ents if os.path.isdir(e)]
@@ -197,7 +203,7 @@ def prune_cache(max_entries=120):
     ents.sort(key=lambda e: os.path.getmtime(e))
     now = time.time()
     for e in ents[: len(ents) - max_entries]:
-        if now - os.path.getmtime(e) < 3600:      # possibly in use by a concurrent check
+        if now - os.path.getmtime(e) < min_age:      # possibly in use by a concurrent check
             continue
         shutil.rmtree(e, ignore_errors=True)
     for f in os.listdir(root):
